@@ -227,6 +227,26 @@ func c06Geom(r *engine.Run, g geom.Geometry, c shapeCase) {
 	} else if d := refcodec.Diff(want, refcodec.Describe(viaStd)); d != "" {
 		bad("Geometry.UnmarshalJSON.notIdentical", d)
 	}
+	// a receiver that already holds something else (decoding a stream into one variable):
+	// the result is the decoded document, nothing of the previous value
+	used := geom.NewGeometryCollection([]geom.Geometry{geom.NewPointXYZ(9, 9, 9).AsGeometry(), geom.NewLineStringXY(7, 7, 8, 8).AsGeometry()}).AsGeometry()
+	if err := json.Unmarshal(js, &used); err != nil {
+		bad("Geometry.UnmarshalJSON.reusedReceiver", err.Error())
+	} else if d := refcodec.Diff(want, refcodec.Describe(used)); d != "" {
+		bad("Geometry.UnmarshalJSON.reusedReceiver.notIdentical", d)
+	}
+	if g.Type() == geom.TypeMultiPoint {
+		prev := geom.NewMultiPoint([]geom.Point{geom.NewPointXY(9, 9), geom.NewPointXY(8, 8), geom.NewPointXY(7, 7)})
+		if err := prev.UnmarshalJSON(js); err != nil || refcodec.Diff(want, refcodec.Describe(prev.AsGeometry())) != "" {
+			bad("MultiPoint.UnmarshalJSON.reusedReceiver", fmt.Sprint(err, prev.AsText()))
+		}
+	}
+	if g.Type() == geom.TypeGeometryCollection {
+		prev := geom.NewGeometryCollection([]geom.Geometry{geom.NewPointXY(9, 9).AsGeometry()})
+		if err := prev.UnmarshalJSON(js); err != nil || refcodec.Diff(want, refcodec.Describe(prev.AsGeometry())) != "" {
+			bad("GeometryCollection.UnmarshalJSON.reusedReceiver", fmt.Sprint(err, prev.AsText()))
+		}
+	}
 }
 
 // ---- documents from a grammar ----------------------------------------------------
@@ -574,6 +594,14 @@ func c06Features(r *engine.Run) {
 		if !reflect.DeepEqual(jsonNorm(f.ForeignMembers), jsonNorm(f2.ForeignMembers)) {
 			r.Violation("C06/feature.foreignMembers", "feature", c, fmt.Sprintf("%v vs %v in %s", f.ForeignMembers, f2.ForeignMembers, js))
 		}
+		// the same document decoded into a feature that already holds another one
+		f3 := geom.GeoJSONFeature{Geometry: geom.NewPointXY(9, 9).AsGeometry(), ID: "old", Properties: map[string]interface{}{"stale": 1.0, "k": "old"}, ForeignMembers: map[string]interface{}{"staleMember": true}}
+		if p := engine.SafeCall(func() { err = json.Unmarshal(js, &f3) }); p != nil || err != nil {
+			r.Violation("C06/feature.reusedReceiver.unmarshal", "feature", c, fmt.Sprint(p, err))
+		} else if refcodec.Diff(refcodec.Describe(f2.Geometry), refcodec.Describe(f3.Geometry)) != "" || !reflect.DeepEqual(jsonNorm(f2.ID), jsonNorm(f3.ID)) ||
+			!reflect.DeepEqual(jsonNorm(f2.Properties), jsonNorm(f3.Properties)) || !reflect.DeepEqual(jsonNorm(f2.ForeignMembers), jsonNorm(f3.ForeignMembers)) {
+			r.Violation("C06/feature.reusedReceiver.differsFromFreshDecode", "feature", c, fmt.Sprintf("fresh %v / %v / %v, reused %v / %v / %v in %s", f2.ID, f2.Properties, f2.ForeignMembers, f3.ID, f3.Properties, f3.ForeignMembers, js))
+		}
 		if len(f.ForeignMembers) > 0 || f.ID != nil {
 			r.Nontrivial(string(js))
 		}
@@ -630,6 +658,17 @@ func c06Features(r *engine.Run) {
 		if len(col2) != len(col) {
 			r.Violation("C06/featureCollection.length", "fc", c, fmt.Sprint(len(col2)))
 			continue
+		}
+		col3 := geom.GeoJSONFeatureCollection{{Geometry: geom.NewPointXY(9, 9).AsGeometry(), ID: "old", Properties: map[string]interface{}{"stale": 1.0}}, {Geometry: geom.NewPointXY(8, 8).AsGeometry()}, {Geometry: geom.NewPointXY(7, 7).AsGeometry()}}
+		if err := json.Unmarshal(js, &col3); err != nil || len(col3) != len(col2) {
+			r.Violation("C06/featureCollection.reusedReceiver", "fc", c, fmt.Sprint(err, len(col3)))
+		} else {
+			for i := range col2 {
+				if !reflect.DeepEqual(jsonNorm(col2[i].ID), jsonNorm(col3[i].ID)) || !reflect.DeepEqual(jsonNorm(col2[i].Properties), jsonNorm(col3[i].Properties)) ||
+					!reflect.DeepEqual(jsonNorm(col2[i].ForeignMembers), jsonNorm(col3[i].ForeignMembers)) || refcodec.Diff(refcodec.Describe(col2[i].Geometry), refcodec.Describe(col3[i].Geometry)) != "" {
+					r.Violation("C06/featureCollection.reusedReceiver.member", "fc", c, fmt.Sprint(i, col3[i].ID, col3[i].Properties))
+				}
+			}
 		}
 		for i := range col {
 			if !reflect.DeepEqual(jsonNorm(col[i].ForeignMembers), jsonNorm(col2[i].ForeignMembers)) || !reflect.DeepEqual(jsonNorm(col[i].Properties), jsonNorm(col2[i].Properties)) ||
